@@ -216,7 +216,11 @@ impl Lexer {
                 "and" => Some(Lexem::And),
                 "not" if self.after_where => Some(Lexem::Not),
                 "order" => Some(Lexem::Order),
-                "by" => Some(Lexem::By),
+                "by" => {
+                    // the keys of ORDER BY / GROUP BY are expressions, not paths
+                    self.after_where = true;
+                    Some(Lexem::By)
+                }
                 "asc" => self.next_lexem(),
                 "desc" => Some(Lexem::DescendingOrder),
                 "limit" => Some(Lexem::Limit),
